@@ -88,24 +88,23 @@ Definition rd_es : list event :=
   [ EvOp (OBlob (MkDigest true 1) 1)
   ; EvOp (OCreate (MkCreate rd_a (BFiles (MkDigest true 1) [(0, None)] false []) None None [] None None 30))
   ; EvOp (OCopy rd_a rd_b) ].
-Definition rd_o : op := OCopy rd_a rd_A.   (* copy a:t onto itself under another letter case... *)
 Definition rd_o2 : op := OCreate (MkCreate rd_A (BFrom rd_b) None (Some 2) [] None None 31).  (* re-create a:t as A:t FROM b:t *)
 
 Theorem C12_idempotent_redo_refuted : ~ C12_idempotent_redo_full.
 Proof.
-  intros H. specialize (H rd_sz rd_es rd_o2 4%nat).
+  intros H. specialize (H rd_sz rd_es rd_o2 5%nat).
   assert (Hg : guards rd_sz empty_store rd_es) by (vm_compute; repeat split).
   specialize (H Hg eq_refl eq_refl eq_refl rd_A). vm_compute in H. discriminate.
 Qed.
 Print Assumptions C12_idempotent_redo_refuted.
 
 (** ** Non-vacuity *)
-Example C12_example_guards : guards rd_sz empty_store (rd_es ++ [EvCrash rd_o2 4; EvOp rd_o2; EvCrash (ODelete rd_b) 1; EvOp OStartup]).
+Example C12_example_guards : guards rd_sz empty_store (rd_es ++ [EvCrash rd_o2 5; EvOp rd_o2; EvCrash (ODelete rd_b) 1; EvOp OStartup]).
 Proof. vm_compute. repeat split. Qed.
 
 Example C12_example_partial_hyps :
   let s := ev_run rd_sz empty_store rd_es in
   redo_ok s rd_o2 = true /\ has_unreadable s = false /\
-  has_unreadable (crash rd_sz s rd_o2 3) = false /\ has_unreadable (crash rd_sz s rd_o2 4) = true /\ has_unreadable (crash rd_sz s rd_o2 5) = false /\
-  length (effects rd_sz s rd_o2) = 7%nat.
+  has_unreadable (crash rd_sz s rd_o2 4) = false /\ has_unreadable (crash rd_sz s rd_o2 5) = true /\ has_unreadable (crash rd_sz s rd_o2 6) = false /\
+  length (effects rd_sz s rd_o2) = 6%nat.
 Proof. vm_compute. repeat split. Qed.
